@@ -56,6 +56,20 @@ var props = map[string]propCfg{
 			"vi: when the deleted characters reach the end of the line the cursor cannot stay at the same point, so put-before is not required to restore there",
 			"known finding multibyte-word excluded by construction (word kills only get ASCII buffers)",
 		}},
+	"C17": {ID: "C17", Level: "exploration",
+		Tests: []testCfg{{Name: "TestC17", Quick: 4800, Thorough: 120000, QShards: 16, TShards: 16}},
+		Assumptions: []string{
+			"keys one per read (keeps C05's argument-key findings out); convert-meta off",
+			"dd / yy are not motions and are not generated; line motions j/k are not in the statement's list",
+			"after the operator a still-open local keymap is left with ESC so both sessions are compared at rest",
+		}},
+	"C18": {ID: "C18", Level: "exploration",
+		Tests: []testCfg{{Name: "TestC18", Quick: 4800, Thorough: 100000, QShards: 16, TShards: 16}},
+		Assumptions: []string{
+			"one key per read in both sessions; K never contains the macro-control keys nor accept",
+			"cases where K itself is not deterministic (first pass typed vs typed while recording differ) are discarded and counted",
+			"known finding lone-esc-in-macro excluded by construction (ESC followed by a key that forms an ESC-prefixed binding of vi-insert) and reported from a regress case",
+		}},
 	"C19": {ID: "C19", Level: "exploration",
 		Tests: []testCfg{{Name: "TestC19", Quick: 200000, Thorough: 4000000, QShards: 4, TShards: 16}},
 		Fuzz:  []fuzzCfg{{Name: "FuzzC19Codec", Secs: 90}},
